@@ -46,6 +46,36 @@ func sanitizeLangSys(langSys *tables.LangSys, featuresCount int) {
 		// invalid index : replace it by the sentinel value
 		langSys.RequiredFeatureIndex = 0xFFFF
 	}
+	// remove the invalid indices
+	valid := langSys.FeatureIndices[:0]
+	for _, index := range langSys.FeatureIndices {
+		if int(index) < featuresCount {
+			valid = append(valid, index)
+		}
+	}
+	langSys.FeatureIndices = valid
+}
+
+// remove the lookup indices which are out of range, in place
+func (la *Layout) sanitizeLookupIndices(lookupsCount int) {
+	sanitize := func(indices []uint16) []uint16 {
+		valid := indices[:0]
+		for _, index := range indices {
+			if int(index) < lookupsCount {
+				valid = append(valid, index)
+			}
+		}
+		return valid
+	}
+	for i := range la.Features {
+		la.Features[i].LookupListIndices = sanitize(la.Features[i].LookupListIndices)
+	}
+	for _, record := range la.FeatureVariations {
+		subs := record.Substitutions.Substitutions
+		for i := range subs {
+			subs[i].AlternateFeature.LookupListIndices = sanitize(subs[i].AlternateFeature.LookupListIndices)
+		}
+	}
 }
 
 type Script struct {
@@ -195,6 +225,7 @@ func newGSUB(table tables.Layout) (GSUB, error) {
 			Subtables: subtables,
 		}
 	}
+	out.sanitizeLookupIndices(len(out.Lookups))
 	return out, nil
 }
 
@@ -253,5 +284,6 @@ func newGPOS(table tables.Layout) (GPOS, error) {
 			Subtables: subtables,
 		}
 	}
+	out.sanitizeLookupIndices(len(out.Lookups))
 	return out, nil
 }
